@@ -24,8 +24,14 @@ use cucumber::{
 };
 use serde_json::{Value, json};
 
-#[derive(Debug, Default)]
+/// Its `Debug` output is a marker: reporters print the World of a failed step or hook only from the `ShowWorld` verbosity on.
+#[derive(Default)]
 pub struct EvW;
+impl std::fmt::Debug for EvW {
+    fn fmt(&self, f: &mut std::fmt::Formatter<'_>) -> std::fmt::Result {
+        f.write_str("WORLDDUMP#")
+    }
+}
 impl World for EvW {
     type Error = std::convert::Infallible;
     async fn new() -> Result<Self, Self::Error> {
@@ -139,7 +145,9 @@ impl Tables {
                 };
                 // a step that matched and then panicked carries its captures; the other failures have none
                 let caps = if k != "NotFound" && k != "Ambiguous" { Some(Self::nested_captures(text)) } else { None };
-                event::Step::Failed(caps, None, None, err)
+                // a step that ran (matched, then panicked) hands its World to the event
+                let world = caps.as_ref().map(|_| Arc::new(EvW));
+                event::Step::Failed(caps, None, world, err)
             }
         }
     }
@@ -185,7 +193,7 @@ impl Tables {
                         let h = match &sc[2] {
                             Value::String(s) if s == "Started" => event::Hook::Started,
                             Value::String(_) => event::Hook::Passed,
-                            f => event::Hook::Failed(None, payload(f[1].as_u64().unwrap_or(0))),
+                            f => event::Hook::Failed(Some(Arc::new(EvW)), payload(f[1].as_u64().unwrap_or(0))),
                         };
                         event::Scenario::Hook(ty, h)
                     }
